@@ -79,12 +79,14 @@ void Decoder::read(std::string &v)
 
 void Decoder::read(uint8_t *s, size_t n)
 {
+    if (n == 0) return; // s may be null (data() of an empty vector)
     std::memcpy(s, cur_, n);
     cur_ += n;
 }
 
 void Decoder::read(char *s, size_t n)
 {
+    if (n == 0) return; // s may be null
     std::memcpy(s, cur_, n);
     cur_ += n;
 }
